@@ -19,6 +19,7 @@ import (
 	"time"
 
 	"deps.dev/util/resolve"
+	"deps.dev/util/resolve/dep"
 	"verifharness/fw"
 )
 
@@ -106,7 +107,10 @@ const rule = "universes: random npm / Maven / PyPI universes (2-12 packages, 1-8
 	"the op dumps the client, resolves every root fresh (G0), replays the list twice on one client+resolver, compares the client dump, rebuilds the client in two " +
 	"permuted insertion orders, and runs the list on 16 goroutines. A second op kind (cross) resolves universe 1 and then a variant of it (same names and requirement strings, " +
 	"about half of the versions removed) in one fresh child process and compares with a child that resolves only the variant (state surviving outside client and resolver). " +
-	"Distinct = distinct G0 hash; non-trivial = at least one root whose graph has an edge."
+	"Gadget families (deliberate, not random): hub/dependents/aggregators universes in which the same (package, requirement) pair - from a small shared pool with plain and " +
+	"prerelease-admitting strings side by side - is reached from different roots, every hub version lying on a dependency cycle through itself; layered Maven universes with exclusions on " +
+	"nested dependencies drawn from a small shared pool of exclusion strings; histories over hub versions, dependents and aggregators on one resolver. The concurrency phase runs in a " +
+	"child process so that a fatal runtime error (concurrent map writes) becomes conc:0 of that history. Distinct = distinct G0 hash; non-trivial = at least one root whose graph has an edge."
 
 func main() {
 	if len(os.Args) > 1 {
@@ -116,6 +120,9 @@ func main() {
 			return
 		case "racebatch":
 			raceBatchMain(os.Args[2:])
+			return
+		case "concserve":
+			concServeMain()
 			return
 		case "g0":
 			g0Main(os.Args[2:])
@@ -217,6 +224,20 @@ func run(c *fw.Ctx) {
 				jobs = append(jobs, job{u, roots, c.Rng.Int63n(1 << 30), "gen-" + sysName(sys)})
 			}
 		}
+	}
+
+	// 3. gadget families: the same (package, requirement) pair reached from
+	// different roots; Maven exclusions on nested dependencies (gadget.go)
+	ng := c.N(70, 700)
+	for _, sys := range []resolve.System{resolve.NPM, resolve.Maven, resolve.PyPI} {
+		for i := 0; i < ng; i++ {
+			u, roots := genGadget(c.Rng, sys)
+			jobs = append(jobs, job{u, roots, c.Rng.Int63n(1 << 30), "gadget-hub-" + sysName(sys)})
+		}
+	}
+	for i := 0; i < ng; i++ {
+		u, roots := genMavenExclusions(c.Rng)
+		jobs = append(jobs, job{u, roots, c.Rng.Int63n(1 << 30), "gadget-exclusions-maven"})
 	}
 
 	lines := make([]string, len(jobs))
@@ -478,7 +499,27 @@ func witnesses() []job {
 	mv2 := lit(resolve.Maven,
 		uPkg{"g:a", []uVer{{Version: "1", Reqs: []uReq{{Name: "g:b", Version: "[1.0,1.0.0]"}}}}},
 		uPkg{"g:b", []uVer{{Version: "1.0.0"}, {Version: "1.0"}}})
+	// a (package, requirement) pair reached under two roots: root a 1.0 lies on a
+	// cycle and receives a plain and a prerelease-admitting requirement on a;
+	// b reaches the same two requirements (a resolver-wide cache keyed by
+	// (package, requirement) must not remember what it computed under root a)
+	pyc := lit(resolve.PyPI,
+		uPkg{"a", []uVer{{Version: "1.0", Reqs: []uReq{{Name: "c", Version: ""}, {Name: "d", Version: ""}}}, {Version: "2.0"}}},
+		uPkg{"b", []uVer{{Version: "1.0", Reqs: []uReq{{Name: "c", Version: ""}, {Name: "d", Version: ""}}}}},
+		uPkg{"c", []uVer{{Version: "1.0", Reqs: []uReq{{Name: "a", Version: ">=1.0"}}}}},
+		uPkg{"d", []uVer{{Version: "1.0", Reqs: []uReq{{Name: "a", Version: ">=0.5a1"}}}}})
+	// the same exclusion string below a parent that itself carries exclusions,
+	// and again under another root
+	ex := func(s string) []kv { return []kv{{int(dep.MavenExclusions), s}} }
+	mvx := lit(resolve.Maven,
+		uPkg{"g:x", []uVer{{Version: "1.0"}}}, uPkg{"g:y", []uVer{{Version: "1.0"}}}, uPkg{"g:z", []uVer{{Version: "1.0"}}},
+		uPkg{"g:q", []uVer{{Version: "1.0", Reqs: []uReq{{Name: "g:x", Version: "1.0"}, {Name: "g:y", Version: "1.0"}, {Name: "g:z", Version: "1.0"}}}}},
+		uPkg{"g:p", []uVer{{Version: "1.0", Reqs: []uReq{{Name: "g:q", Version: "1.0", Attrs: ex("g:y")}}}}},
+		uPkg{"g:r1", []uVer{{Version: "1.0", Reqs: []uReq{{Name: "g:p", Version: "1.0", Attrs: ex("g:x")}}}}},
+		uPkg{"g:r2", []uVer{{Version: "1.0", Reqs: []uReq{{Name: "g:q", Version: "1.0", Attrs: ex("g:y")}}}}})
 	var js []job
+	js = append(js, job{pyc, []rootRef{{"a", "1.0"}, {"b", "1.0"}, {"a", "2.0"}}, 3, "witness"})
+	js = append(js, job{mvx, []rootRef{{"g:r1", "1.0"}, {"g:r2", "1.0"}, {"g:p", "1.0"}}, 3, "witness"})
 	for _, u := range []*universe{mv, py, np, mv2} {
 		js = append(js, job{u, u.allRoots(), 7, "witness"})
 		rs := u.allRoots()
